@@ -5,7 +5,6 @@ use super::{product, radix, PropRun};
 use crate::case::{Case, Verdict};
 use crate::engine::{random_part, run_part, Env, EvidenceMeta, Tally};
 use crate::gen;
-use crate::observe::{equivalent, Recipe};
 use crate::reffn::RefFn;
 use crate::spec::{spec_judge, Class, SpecOpts};
 use crate::src::Src;
@@ -73,61 +72,14 @@ pub fn judge(_part: &str, case: &Case, tally: &mut Tally) -> Verdict {
     if v != Verdict::Pass {
         return v;
     }
-    // "all modes stay exactly as they were": hidden state is only observable through
-    // behaviour, so for cases whose last call is a single editing command (nums[0] == 1)
-    // a metamorphic pair is compared under the probe battery:
-    //   (history, cmd, CAN ED2 CUP1;1)   vs   (history, CAN ED2 CUP1;1).
-    // After wiping the screen (same pen on both sides) and placing the cursor nothing of
-    // the command's legitimate effect is left; any remaining difference is a mode,
-    // margin, tab stop, charset, pen or saved-context change.
-    if case.nums.first() == Some(&1) && case.calls.len() >= 2 && last_call_is_pure_edit(case) {
-        let n = case.calls.len();
-        let mk = |with_cmd: bool, neutral: &str| -> Recipe {
-            let mut calls: Vec<crate::case::Call> = case.calls[..n - 1].to_vec();
-            if with_cmd {
-                calls.push(case.calls[n - 1].clone());
-            }
-            calls.push(crate::case::Call::FeedStr(neutral.to_string()));
-            Recipe { cols: case.cols, rows: case.rows, limit: case.limit, calls }
-        };
-        // neutraliser: abort any sequence, wipe the screen with the *current* pen kept
-        // (ED 2 uses it on both sides equally), move the cursor to an absolute place
-        // through DECSC-independent means (CUP is origin-relative on both sides equally)
-        let neutral = "\x18\x1b[2J\x1b[1;1H";
-        // wrap marks are cleared by ED 2, cursor is placed by CUP (cancels wrap-pending)
-        if let Err(d) = equivalent(&mk(true, neutral), &mk(false, neutral), true) {
-            return Verdict::fail(
-                "mode-frame",
-                format!("after the editing command plus a screen wipe and CUP, the terminal still differs from one that never received the command: {} (after probes {:?})", d.what, d.after),
-            );
+    // "all modes stay exactly as they were": metamorphic frame check under the probe battery
+    if case.nums.first() == Some(&1) {
+        let pure = |f: &RefFn| matches!(f, RefFn::Ed(0..=2) | RefFn::El(_) | RefFn::Ech(_) | RefFn::Ich(_) | RefFn::Dch(_) | RefFn::Decaln);
+        if let Some(v) = crate::spec::mode_frame_check(case, &pure, tally) {
+            return v;
         }
-        tally.steps += 1;
-        tally.class("mode_frame_checked");
     }
     Verdict::Pass
-}
-
-/// the last call consists only of editing functions, starts and ends in parser ground state
-fn last_call_is_pure_edit(case: &Case) -> bool {
-    use crate::case::Call;
-    let n = case.calls.len();
-    let mut p = crate::refparser::RefParser::new();
-    for c in &case.calls[..n - 1] {
-        if let Call::FeedStr(s) | Call::Feed(s) = c {
-            for ch in s.chars() {
-                p.feed(ch);
-            }
-        }
-    }
-    if p.state != crate::refparser::St::Ground {
-        return false;
-    }
-    let Call::FeedStr(last) = &case.calls[n - 1] else { return false };
-    let (fs, in_domain, st) = crate::walk::functions_of(last);
-    in_domain
-        && st == crate::refparser::St::Ground
-        && !fs.is_empty()
-        && fs.iter().all(|f| matches!(f, RefFn::Ed(0..=2) | RefFn::El(_) | RefFn::Ech(_) | RefFn::Ich(_) | RefFn::Dch(_) | RefFn::Decaln))
 }
 
 pub fn gen_random(src: &mut Src, _i: usize) -> Case {
@@ -198,6 +150,46 @@ pub fn run(env: &Env) -> PropRun {
         &make,
         &j,
     ));
+    if env.tier == crate::engine::Tier::Thorough {
+        // all ordered pairs of editing commands on 4x3 and 3x2
+        struct PB {
+            cols: usize,
+            rows: usize,
+            cmds: Vec<String>,
+            dims: [usize; 7],
+            total: usize,
+        }
+        let pbs: Vec<PB> = [(4usize, 3usize), (3, 2)]
+            .iter()
+            .map(|&(cols, rows)| {
+                let cmds = commands(cols);
+                let dims = [rows, cols + 1, PENS.len(), 3, 2, cmds.len(), cmds.len()];
+                let total = product(&dims);
+                PB { cols, rows, cmds, dims, total }
+            })
+            .collect();
+        let ptotal: usize = pbs.iter().map(|b| b.total).sum();
+        let pmake = |mut i: usize| -> Option<Case> {
+            for b in &pbs {
+                if i < b.total {
+                    let d = radix(i, &b.dims)?;
+                    let mut s = gen::fill_screen_mode(b.cols, b.rows, d[3]);
+                    s.push_str(PENS[d[2]]);
+                    if d[4] == 1 {
+                        s.push_str("\x1b[4h");
+                    }
+                    s.push_str(&format!("\x1b[{};{}H", d[0] + 1, d[1].min(b.cols - 1) + 1));
+                    if d[1] >= b.cols {
+                        s.push('x');
+                    }
+                    return Some(Case::new(b.cols, b.rows, None).feed(s).feed(b.cmds[d[5]].clone()).feed(b.cmds[d[6]].clone()));
+                }
+                i -= b.total;
+            }
+            None
+        };
+        parts.push(run_part(env, "enum-pairs", ptotal, true, "4x3 and 3x2: every cursor cell incl. wrap-pending x 3 pens x 3 content modes x insert on/off x all ordered pairs of the editing commands", &pmake, &j));
+    }
     parts.push(random_part(env, "random-histories", env.tier.scale(60_000, 40), &gen_random, &j));
     PropRun {
         parts,
